@@ -222,6 +222,50 @@ def run(chk):
             return ('property#text is the one the property\'s precision requires', f'TimestampProperty({P},{C}) given {kind} {v!r} writes {text!r}, specification formatter {want!r}', {})
     chk.bounded('native: TimestampProperty.clean over value kinds', list(prop_cases()), check_prop, classify=lambda c: (c[0], c[1], c[2]),
                 bound='6 property settings x {string, aware datetime, naive datetime, STIXdatetime of each of the 6 settings} x 8 microsecond values')
+    # ---- every route by which a timestamp reaches an object and its serialization: the text written is the one the property's own (precision, constraint) requires
+    import stix2, copy as _copy, json as _json
+
+    def route_cases():
+        for us in (0, 1, 999, 1000, 120000, 123000, 123456, 500000, 999999):
+            d = dtm.datetime(2021, 7, 4, 23, 59, 59, us, tzinfo=dtm.timezone.utc)
+            for ver, P, C in (('2.1', 'MILLISECOND', 'MIN'), ('2.0', 'MILLISECOND', 'EXACT')):
+                for route in ('constructor(datetime)', 'constructor(text)', 'parse', 'ObjectFactory default', 'ObjectFactory(created=text)', 'Environment factory default', 'deepcopy of the object', 'deepcopy of the bundle',
+                              'new_version of it', 'member of a bundle', 'through MemoryStore'):
+                    yield (us, ver, P, C, route, d)
+
+    def check_route(case):
+        us, ver, P, C, route, d = case
+        V = stix2.v21 if ver == '2.1' else stix2.v20
+        text6 = spec_text(us_of(d), 'ANY', 'EXACT') if us else U.format_datetime(d)
+        kw = {'name': 'n'} if ver == '2.1' else {'name': 'n', 'identity_class': 'individual'}
+        unit = 1000 if C == 'EXACT' else 1
+        want = spec_text(us_of(d) - us_of(d) % unit, P, C)
+        try:
+            if route == 'constructor(datetime)': o = V.Identity(created=d, modified=d, **kw)
+            elif route == 'constructor(text)': o = V.Identity(created=text6, modified=text6, **kw)
+            elif route == 'parse': o = stix2.parse(dict({'type': 'identity', 'id': 'identity--' + '311b2d2d-f010-4473-83ec-1edf84858f4c', 'created': text6, 'modified': text6}, **kw, **({'spec_version': '2.1'} if ver == '2.1' else {})))
+            elif route == 'ObjectFactory default':
+                f = stix2.ObjectFactory(); f.set_default_created(d); o = f.create(V.Identity, **kw)
+            elif route == 'ObjectFactory(created=text)': o = stix2.ObjectFactory(created=text6).create(V.Identity, **kw)
+            elif route == 'Environment factory default':
+                env = stix2.Environment(factory=stix2.ObjectFactory(created=d), store=stix2.MemoryStore()); o = env.create(V.Identity, **kw)
+            elif route == 'deepcopy of the object': o = _copy.deepcopy(V.Identity(created=d, modified=d, **kw))
+            elif route == 'deepcopy of the bundle': o = _copy.deepcopy(V.Bundle(V.Identity(created=d, modified=d, **kw))).objects[0]
+            elif route == 'new_version of it':
+                o = V.Identity(created=d, modified=d, **kw).new_version(name='m')
+                got = _json.loads(o.serialize())['created']
+                return None if got == want else ('route#text is the one the property\'s precision requires:' + route, f'{ver} identity created {text6} via {route}: created written {got!r}, specification formatter {want!r}', {})
+            elif route == 'member of a bundle': o = stix2.parse(V.Bundle(V.Identity(created=d, modified=d, **kw)).serialize()).objects[0]
+            elif route == 'through MemoryStore':
+                ms = stix2.MemoryStore(); src = V.Identity(created=d, modified=d, **kw); ms.add(src); o = ms.get(src.id)
+            else: return None
+        except Exception as ex:
+            return ('route#accepted:' + route, f'{ver} identity with created {text6} via {route}: {type(ex).__name__}: {ex}', {})
+        got = _json.loads(o.serialize())
+        for k in ('created', 'modified'):
+            if got[k] != want: return ('route#text is the one the property\'s precision requires:' + route, f'{ver} identity {k} {text6} via {route}: written {got[k]!r}, specification formatter {want!r}', {})
+    chk.bounded('native: every route of a timestamp into an object', list(route_cases()), check_route, classify=lambda c: (c[0], c[1], c[4]),
+                bound='9 microsecond values x 2 spec versions x 11 routes (constructors, parse, factory / environment defaults, deep copies, new_version, bundle, store)')
     if chk.tier == 'thorough':
         step = M // 64
         with mp.Pool(16) as pool:
